@@ -1196,7 +1196,12 @@ func (c *client) establishRegion(reg hrpc.RegionInfo, addr string) {
 		// connect to the region's regionserver.
 		// only the first caller to Dial gets to actually connect, other concurrent calls
 		// will block until connected or an error.
-		dialCtx, cancel := context.WithTimeout(reg.Context(), c.regionLookupTimeout)
+		// The connection is shared by all the regions of that regionserver:
+		// the dial must not end because this region is replaced in the
+		// cache meanwhile, or a healthy server is dialled a second time for
+		// the others.
+		dialCtx, cancel := context.WithTimeout(
+			context.WithoutCancel(reg.Context()), c.regionLookupTimeout)
 		err = client.Dial(dialCtx)
 		cancel()
 
